@@ -39,7 +39,9 @@ func pruneBy(p *core.Prog, fn *ssa.Function, as []assumption) (*core.PrunedCFG, 
 		for _, a := range as {
 			if d := a.match(f); d != 0 {
 				decide[b] = d
-				hits[a.name] = append(hits[a.name], iff)
+				if d == 1 || d == -1 {
+					hits[a.name] = append(hits[a.name], iff)
+				}
 			}
 		}
 	}
@@ -128,8 +130,8 @@ func immediateAbort(p *core.Prog, r *core.Run, rule, key string, fn *ssa.Functio
 		}
 		tf := p.FactOf(core.Guard{Cond: iff.Cond, Pol: true, If: iff})
 		d := a.match(tf)
-		if d == 0 {
-			continue
+		if d != 1 && d != -1 {
+			continue // unrelated, or only decided by implication
 		}
 		n++
 		target := b.Succs[0]
@@ -193,6 +195,15 @@ func cmpAssume(name, op string, l, rr func(*core.Expr) bool) assumption {
 			return 0
 		}
 		try := func(fop string, a, b *core.Expr) int {
+			if op == "==" && l(a) && b.Op == "const" && !rr(b) && (fop == "==" || fop == "!=") {
+				// the assumed x == K decides a test of x against another constant
+				// (the cases of a switch): -2/+2 = decided, but not a test of the
+				// assumed condition itself
+				if fop == "==" {
+					return -2
+				}
+				return 2
+			}
 			if !l(a) || !rr(b) {
 				return 0
 			}
